@@ -680,8 +680,8 @@ fn parse_json_filter(input: &[u8], output: &mut [u8]) -> Result<(usize, usize), 
     let mut found_tags: u64 = 0;
     let letter_to_tag_bit = |letter: u8| -> Option<u64> {
         match letter {
-            65..=90 => Some(letter as u64 - 65),
-            97..=122 => Some(letter as u64 - 97 + 26),
+            65..=90 => Some(1_u64 << (letter - 65)),
+            97..=122 => Some(1_u64 << (letter - 97 + 26)),
             _ => None,
         }
     };
